@@ -70,3 +70,60 @@ Proof.
   destruct x as [|nx|m2 e2]; cbn; try reflexivity. f_equal. apply dyadic_compare_eq_l. 
   rewrite dyadic_compare_antisym, Heq. reflexivity.
 Qed.
+
+(* ---------- compareFloatToInt computes the exact order ---------- *)
+Lemma quot_bounds m P : 0 < P -> let w := Z.quot m P in w * P - P < m < w * P + P.
+Proof.
+  intros HP w. pose proof (Z.quot_rem' m P) as E. fold w in E.
+  destruct (Z_le_gt_dec 0 m) as [Hm|Hm].
+  - pose proof (Z.rem_bound_pos_pos m P HP Hm). lia.
+  - pose proof (Z.rem_bound_pos_neg m P HP ltac:(lia)). lia.
+Qed.
+
+Theorem compare_float_to_int_exact a r :
+  min_int64 <= r <= max_int64 -> compare_float_to_int a r = f64_compare_Z a r.
+Proof.
+  intros Hr. unfold min_int64, max_int64 in Hr. destruct a as [|neg|m e]; [reflexivity|destruct neg; reflexivity|].
+  unfold compare_float_to_int, f64_compare_Z. cbn [f64_compare]. unfold dyadic_compare.
+  assert (HT : two63 = 9223372036854775808) by reflexivity. set (T := two63) in *.
+  destruct (Z_le_gt_dec 0 e) as [He|He].
+  - (* integral value m * 2^e *)
+    replace (Z.min e 0) with 0 by lia. rewrite !Z.sub_0_r. change (2 ^ 0) with 1. rewrite !Z.mul_1_r.
+    replace (Z.max e 0) with e by lia. replace (Z.max (- e) 0) with 0 by lia. change (2 ^ 0) with 1. rewrite Z.quot_1_r.
+    set (v := m * 2 ^ e).
+    destruct (Z.compare_spec v T) as [H1|H1|H1].
+    + f_equal. symmetry. apply Z.compare_gt_iff. lia.
+    + destruct (Z.compare_spec v (- T)) as [H2|H2|H2].
+      * destruct (Z.compare_spec v r) as [H3|H3|H3]; [rewrite Z.compare_refl| |]; reflexivity.
+      * f_equal. symmetry. apply Z.compare_lt_iff. lia.
+      * destruct (Z.compare_spec v r) as [H3|H3|H3]; [rewrite Z.compare_refl| |]; reflexivity.
+    + f_equal. symmetry. apply Z.compare_gt_iff. lia.
+  - (* m / 2^k with k = -e > 0 *)
+    replace (Z.min e 0) with e by lia. rewrite !Z.sub_diag. change (2 ^ 0) with 1. rewrite !Z.mul_1_r.
+    replace (0 - e) with (- e) by lia.
+    replace (Z.max e 0) with 0 by lia. replace (Z.max (- e) 0) with (- e) by lia. change (2 ^ 0) with 1. rewrite ?Z.mul_1_r.
+    set (P := 2 ^ (- e)). assert (HP : 0 < P) by (apply pow2_pos; lia).
+    pose proof (quot_bounds m P HP) as Hq. cbn zeta in Hq. set (w := Z.quot m P) in *.
+    destruct (Z.compare_spec m (T * P)) as [H1|H1|H1].
+    + f_equal. symmetry. apply Z.compare_gt_iff. nia.
+    + destruct (Z.compare_spec m (- T * P)) as [H2|H2|H2].
+      * destruct (Z.compare_spec w r) as [H3|H3|H3].
+        -- subst r. reflexivity.
+        -- f_equal. symmetry. apply Z.compare_lt_iff. nia.
+        -- f_equal. symmetry. apply Z.compare_gt_iff. nia.
+      * f_equal. symmetry. apply Z.compare_lt_iff. nia.
+      * destruct (Z.compare_spec w r) as [H3|H3|H3].
+        -- subst r. reflexivity.
+        -- f_equal. symmetry. apply Z.compare_lt_iff. nia.
+        -- f_equal. symmetry. apply Z.compare_gt_iff. nia.
+    + f_equal. symmetry. apply Z.compare_gt_iff. nia.
+Qed.
+
+Lemma parse_int_range t n : parse_int t = Some n -> min_int64 <= n <= max_int64.
+Proof.
+  unfold parse_int.
+  match goal with |- context [let '(n0, d0) := ?X in _] => destruct X as [neg ds] end.
+  destruct (digits_val ds) as [v|]; [|discriminate].
+  destruct (Z.leb_spec min_int64 (if neg then - v else v)); [|discriminate].
+  destruct (Z.leb_spec (if neg then - v else v) max_int64); [|discriminate]. cbn. intros [= <-]. lia.
+Qed.
